@@ -116,6 +116,12 @@ func (t *Term) Has(pats ...string) bool {
 			for (t.Op == "local" || t.Op == "phi") && len(t.Args) == 1 {
 				t = t.Args[0]
 			}
+			if strings.HasPrefix(p, "^~") { // ... and through tuple extraction: "the result of this call"
+				p = "^" + p[2:]
+				for (t.Op == "extract" || t.Op == "local" || t.Op == "phi") && len(t.Args) == 1 {
+					t = t.Args[0]
+				}
+			}
 			if t.Op != p[1:] && !nameMatch(t.Op+":"+t.Name, p[1:]) && !(strings.Contains(p, ":") && t.Op == p[1:strings.Index(p, ":")] && nameMatch(t.Name, p[strings.Index(p, ":")+1:])) {
 				return false
 			}
@@ -191,6 +197,26 @@ func storesTo(a ssa.Value) (vals []ssa.Value, escapes bool) {
 		}
 	}
 	return
+}
+
+// hasPartialStores: some field / element of the local is written through a derived address.
+func hasPartialStores(a *ssa.Alloc) bool {
+	if a.Referrers() == nil {
+		return false
+	}
+	for _, ref := range *a.Referrers() {
+		switch x := ref.(type) {
+		case *ssa.FieldAddr:
+			if !readOnlyAddr(x, 0) {
+				return true
+			}
+		case *ssa.IndexAddr:
+			if !readOnlyAddr(x, 0) {
+				return true
+			}
+		}
+	}
+	return false
 }
 
 // readOnlyAddr: the derived address is only loaded from (possibly through further field/index addressing).
@@ -355,6 +381,21 @@ func (r *renderer) render1(v ssa.Value, d int) *Term {
 		switch x.Op {
 		case token.MUL: // load
 			if a, ok := x.X.(*ssa.Alloc); ok {
+				// flow-sensitive shortcut: the value stored last in the load's own block before the load
+				if b := x.Block(); b != nil && !hasPartialStores(a) {
+					var last ssa.Value
+					for _, in := range b.Instrs {
+						if in == ssa.Instruction(x) {
+							break
+						}
+						if st, ok := in.(*ssa.Store); ok && st.Addr == ssa.Value(a) {
+							last = st.Val
+						}
+					}
+					if last != nil {
+						return r.render(last, d+1)
+					}
+				}
 				return r.loadAlloc(a, d)
 			}
 			return r.render(x.X, d+1)
